@@ -223,3 +223,6 @@ ALTS += ALTS_D
 
 from alts_e import ALTS_E  # noqa: E402
 ALTS += ALTS_E
+
+from alts_f import ALTS_F  # noqa: E402
+ALTS += ALTS_F
